@@ -71,7 +71,8 @@ def consume_impl(wd, moltypes, molecules, resolution, skip, ncoords):
     top = systems.top_text(moltypes, molecules)
     with open(f'{wd}/s.top', 'w') as fh:
         fh.write(top)
-    rows = [{'resid': (k % 9999) + 1, 'resname': 'X', 'name': 'X', 'xyz': (0.001 * k, 0.5, 0.25)} for k in range(ncoords)]
+    pool = sorted({rn for mt in moltypes for rn in mt['resnames']})
+    rows = [{'resid': (k % 9999) + 1, 'resname': pool[k % len(pool)], 'name': 'X', 'xyz': (0.001 * k, 0.5, 0.25)} for k in range(ncoords)]
     systems.write_gro(f'{wd}/c.gro', rows, [9, 9, 9])
     topology = Topology.from_gmx_topfile(f'{wd}/s.top', name='x')
     topology.preprocess()
@@ -103,8 +104,13 @@ def consume_impl(wd, moltypes, molecules, resolution, skip, ncoords):
 
 def gen_system(rng, multi=None):
     ntypes = rng.randint(1, 3)
-    moltypes = [systems.gen_moltype(rng, f'M{"ABC"[i]}', nres=rng.randint(1, 5), multi_atom=(rng.random() < 0.5 if multi is None else multi),
-                                    shape='path' if rng.random() < 0.7 else None) for i in range(ntypes)]
+    moltypes = []
+    for i in range(ntypes):
+        nres = rng.randint(1, 5)
+        # residue names as they occur in real systems, solvent names included
+        resnames = [rng.choice(['RA', 'RB', 'SOL', 'W', 'HOH']) for _ in range(nres)] if rng.random() < 0.4 else None
+        moltypes.append(systems.gen_moltype(rng, f'M{"ABC"[i]}', nres=nres, multi_atom=(rng.random() < 0.5 if multi is None else multi),
+                                            shape='path' if rng.random() < 0.7 else None, resnames=resnames))
     molecules = [(rng.choice(moltypes)['name'], rng.randint(1, 2)) for _ in range(rng.randint(1, 3))]
     return moltypes, molecules
 
